@@ -324,6 +324,60 @@ def verdicts(repo):
     return out
 
 
+_SHAPES = {}
+
+
+def mapping_shape(repo):
+    """How map_args packages its answer, learnt by mapping the call f(x,
+    k=y) onto `a, b=, *, k` abstractly: -> (make, split) where make(pos,
+    kw) builds a mapping of that form and split(mapping) takes one apart.
+    Plain pairs and records with two named fields are understood; anything
+    else falls back to the plain pair."""
+    if id(repo) in _SHAPES:
+        return _SHAPES[id(repo)]
+
+    def pair_make(pos, kw):
+        return (tuple(pos), kw)
+
+    def pair_split(m):
+        if isinstance(m, tuple) and len(m) == 2:
+            return m
+        return None
+    shape = (pair_make, pair_split)
+    try:
+        out = run_get_delegate(repo, 'a,b=,*,k', (('x',), {'k': 'y'}),
+                               None, method='map_args')[0]
+    except (NotDecided, absint.Unsupported, absint._Raise):
+        out = None
+    m = out[1] if out and out[0] == 'return' else None
+    if isinstance(m, absint.Obj) and isinstance(
+            m.attrs.get('__items__'), list) and len(
+            m.attrs['__items__']) == 2:
+        fields = [k for k, v in m.attrs.items()
+                  if k != '__items__' and not k.startswith('__')]
+        pf = [k for k in fields if isinstance(m.attrs[k], (tuple, list))]
+        kf = [k for k in fields if isinstance(m.attrs[k], dict)]
+        if len(fields) == 2 and len(pf) == 1 and len(kf) == 1:
+            order = [k for k in (pf[0], kf[0])]
+            first_is_pos = m.attrs['__items__'][0] is m.attrs[pf[0]]
+            cname = getattr(m, "_name", "mapping")
+
+            def rec_make(pos, kw, pf=pf[0], kf=kf[0]):
+                o = absint.Obj(cname, **{pf: tuple(pos), kf: kw})
+                o.attrs['__items__'] = [o.attrs[pf], o.attrs[kf]] \
+                    if first_is_pos else [o.attrs[kf], o.attrs[pf]]
+                return o
+
+            def rec_split(x, pf=pf[0], kf=kf[0]):
+                if isinstance(x, absint.Obj) and pf in x.attrs and \
+                        kf in x.attrs:
+                    return x.attrs[pf], x.attrs[kf]
+                return pair_split(x)
+            shape = (rec_make, rec_split)
+    _SHAPES[id(repo)] = shape
+    return shape
+
+
 def map_verdicts(repo):
     """FunctionDefinition.map_args on the same situations: the call is
     mapped (not None) exactly when it is well-formed and every supplied
@@ -379,8 +433,7 @@ def map_verdicts(repo):
                     bad['map-checks-every-supplied-value'].append(
                         '%s: positional values and ** extras must be '
                         'type-checked: %s' % (desc, need))
-                pos, kw = out[1] if isinstance(out[1], tuple) and len(
-                    out[1]) == 2 else ((), {})
+                pos, kw = mapping_shape(repo)[1](out[1]) or ((), {})
                 got_pos = [p.attrs.get('name') if isinstance(
                     p, absint.Obj) else p for p in pos]
                 want_pos = [k for k, v in exp[0] if v in call[0]]
